@@ -27,10 +27,12 @@ import (
 
 func TestMain(m *testing.M) { prog.Main(m) }
 
+const testName = "TestPropSignOnlyDecided"
+
 // ---- program ---------------------------------------------------------------------------------------
 
 type Op struct {
-	K string `json:"k"` // start prequorum pre agree cons cert flood post postquorum timeout replay loop
+	K string `json:"k"` // progress start prequorum pre agree cons cert flood post postquorum timeout replay loop
 	// start: slot = previous started slot + D (first start: Prog.Slot0 + D)
 	D int `json:"d,omitempty"`
 	// sender (member id 1..N; Self is skipped for forged messages)
@@ -215,7 +217,10 @@ func (w *world) foreign(a attrs) bool {
 	if w.cur == nil || w.cur.finished {
 		return true
 	}
-	return !a.outerOwn || a.outerRole != w.role || !a.innerOK || a.height != uint64(w.cur.slot)
+	// In direct mode (runner methods called without Validator.ProcessMessage) nothing looks at the validator
+	// key of the outer message id - that check is Validator.validateMessage's - so it cannot make a message foreign.
+	outerOwn := a.outerOwn || w.p.Direct
+	return !outerOwn || a.outerRole != w.role || !a.innerOK || a.height != uint64(w.cur.slot)
 }
 
 // deliver is one operation: hand m to the validator and judge every signing call / broadcast it caused.
@@ -232,9 +237,10 @@ func (w *world) deliver(m *spectypes.SSVMessage, adversarial bool, what string) 
 		}
 	}
 	var certValue []byte
-	if a.cert != nil && w.cur != nil && a.height == uint64(w.cur.slot) && a.outerOwn && a.outerRole == w.role && w.s.ValidCert(a.cert, w.id[:]) {
+	if a.cert != nil && w.cur != nil && a.height == uint64(w.cur.slot) && (a.outerOwn || w.p.Direct) && a.outerRole == w.role && w.s.ValidCert(a.cert, w.id[:]) {
 		certValue = a.cert.FullData
 	}
+	w.probes(a, certValue)
 	op := w.s.NextOp()
 	from := len(w.s.KM.Recs)
 	err := w.s.Deliver(m)
@@ -248,6 +254,39 @@ func (w *world) deliver(m *spectypes.SSVMessage, adversarial bool, what string) 
 	}
 	w.logf("op %d %s [%s]%s%s%s", op, what, a.desc, map[bool]string{true: " FOREIGN"}[foreign], map[bool]string{true: " ADV"}[adversarial && !foreign], es)
 	w.judge(op, from, "deliver", foreign, nil, certValue)
+}
+
+// probes labels deliveries that reach the situations the mechanisms of the property exist for (class
+// histogram only; nothing here is judged).
+func (w *world) probes(a attrs, certValue []byte) {
+	if a.cert == nil || w.cur == nil || w.cur.finished || w.cur.startErr != nil {
+		return
+	}
+	sn := w.s.Snap(w.role)
+	if !sn.HasInstance {
+		return
+	}
+	b := w.s.Runner(w.role).GetBaseRunner()
+	evicted := b.QBFTController.StoredInstances.FindInstance(sn.InstHeight) == nil
+	if certValue != nil {
+		bad := w.s.OracleValueCheck(w.role)(certValue) != nil
+		switch {
+		case !sn.InstDecided && bad:
+			w.cls["probe:valid-cert-with-invalid-value-for-running-undecided-instance"] = true
+		case !sn.InstDecided && evicted:
+			w.cls["probe:valid-cert-for-evicted-undecided-instance"] = true
+		case !sn.InstDecided:
+			w.cls["probe:valid-cert-decides-running-instance"] = true
+		case sn.InstDecided && evicted:
+			w.cls["probe:valid-cert-for-evicted-decided-instance"] = true
+		default:
+			w.cls["probe:valid-cert-for-decided-instance"] = true
+		}
+		return
+	}
+	if a.outerOwn && a.outerRole == w.role && a.height != uint64(w.cur.slot) && w.s.ValidCert(a.cert, w.id[:]) {
+		w.cls["probe:valid-cert-for-other-height-while-duty-running"] = true
+	}
 }
 
 // judge applies the history invariant to everything operation op did.
@@ -334,7 +373,15 @@ func (w *world) judge(op, fromSeq int, opKind string, foreign bool, startDuty *s
 		if first, dup := w.signed[k]; dup {
 			sig := "post-sig-repeated"
 			if viaCert {
+				// Finding on the unchanged tree (see check.json / report): every copy of the certificate is
+				// signed again once the running instance has been evicted undecided. When it is listed as
+				// known (or assumed known for sensitivity runs) it is counted and the search goes on behind it.
 				sig = "post-sig-repeated:instance-evicted-undecided"
+				if prog.IsKnown("C03:"+sig) || os.Getenv("VERIF_C03_ASSUME_KNOWN") != "" {
+					prog.KnownHit(testName, "C03:"+sig)
+					w.cls["known:post-sig-repeated:instance-evicted-undecided"] = true
+					continue
+				}
 			}
 			w.failf(sig, "op %d: duty object %x (domain %x) signed a second time (first in op %d)", op, r.ObjRoot[:6], r.DomainType[:], first)
 			return
@@ -586,6 +633,25 @@ func (w *world) flood(o Op) {
 		w.deliver(dutysim.ConsensusSSV(w.id, sm), true, "flood")
 	}
 	w.cls["flood"] = true
+	// then NS certificates for the duty's own height (what every deciding peer broadcasts)
+	for i := 0; i < o.NS && w.cur != nil; i++ {
+		val := o.Val
+		if sn := w.s.Snap(w.role); sn.InstDecided {
+			val = "" // the decided value itself
+		}
+		var value []byte
+		if val == "" {
+			value = w.s.Snap(w.role).InstValue
+		} else {
+			value = w.value(w.cur.slot, val)
+		}
+		signers := w.s.QuorumOthers()
+		if i%2 == 1 {
+			signers = w.s.Others()[len(w.s.Others())-w.s.Quorum:]
+		}
+		sm := w.s.Cert(signers, w.id[:], specqbft.Height(w.cur.slot), 1, value)
+		w.deliver(dutysim.ConsensusSSV(w.id, sm), false, "flood: certificate for the duty's height")
+	}
 }
 
 func (w *world) partial(o Op, post bool) {
@@ -773,6 +839,25 @@ func (w *world) agree(o Op) {
 	}
 }
 
+// progress takes the next step a well-behaved committee would take from the current state: start a duty,
+// complete the pre-consensus quorum, drive consensus, complete the post-consensus quorum, start the next duty.
+func (w *world) progress(o Op) {
+	sn := w.s.Snap(w.role)
+	_, hasPre := dutysim.PreType(w.role)
+	switch {
+	case w.cur == nil || w.cur.finished || w.cur.startErr != nil:
+		w.start(1)
+	case !sn.HasInstance && hasPre:
+		w.preQuorum(o.Limit)
+	case !sn.HasInstance:
+		w.start(1)
+	case !sn.InstDecided:
+		w.agree(o)
+	default:
+		w.postQuorum(o.Limit)
+	}
+}
+
 func (w *world) timeout(o Op) {
 	t := w.s.Timers[w.role]
 	arm, ok := t.Last()
@@ -842,6 +927,8 @@ func run(p Prog) *prog.Result {
 		switch o.K {
 		case "start":
 			w.start(o.D)
+		case "progress":
+			w.progress(o)
 		case "prequorum":
 			w.preQuorum(o.Limit)
 		case "pre":
@@ -907,7 +994,7 @@ var goodVals = []string{"own", "own", "alt", "alt-slot"}
 var anyVals = append([]string{"own", "own", "own", "alt"}, dutysim.ValueVariants...)
 
 func genOp(t *rapid.T) Op {
-	kinds := []string{"start", "start", "prequorum", "prequorum", "pre", "agree", "agree", "agree", "cons", "cons", "cons", "cert", "cert", "cert", "cert", "flood", "post", "post", "postquorum", "postquorum", "timeout", "replay", "replay", "loop"}
+	kinds := []string{"progress", "progress", "progress", "progress", "progress", "progress", "progress", "progress", "progress", "start", "prequorum", "prequorum", "pre", "agree", "agree", "agree", "cons", "cons", "cons", "cert", "cert", "cert", "cert", "flood", "post", "post", "postquorum", "postquorum", "timeout", "replay", "replay", "loop"}
 	o := Op{K: rapid.SampledFrom(kinds).Draw(t, "k")}
 	switch o.K {
 	case "start":
@@ -920,7 +1007,7 @@ func genOp(t *rapid.T) Op {
 		if o.K == "post" {
 			o.Val = rapid.SampledFrom(goodVals).Draw(t, "val")
 		}
-	case "agree":
+	case "agree", "progress":
 		o.Limit = rapid.SampledFrom([]int{0, 0, 0, 1, 2, 3, 5}).Draw(t, "limit")
 		o.Val = rapid.SampledFrom([]string{"own", "own", "alt"}).Draw(t, "val")
 	case "cons":
@@ -939,6 +1026,8 @@ func genOp(t *rapid.T) Op {
 		o.NS = rapid.SampledFrom([]int{0, 0, 0, 1, 9, -1}).Draw(t, "ns")
 	case "flood":
 		o.H = rapid.IntRange(0, 2).Draw(t, "h")
+		o.NS = rapid.IntRange(0, 2).Draw(t, "then")
+		o.Val = rapid.SampledFrom(anyVals).Draw(t, "val")
 	case "timeout":
 		o.TK = rapid.SampledFrom([]string{"", "", "", "stale", "other-height"}).Draw(t, "tk")
 	case "replay", "loop":
@@ -974,7 +1063,7 @@ func tier() (sizes []int, maxOps int) {
 
 func TestPropSignOnlyDecided(t *testing.T) {
 	sizes, maxOps := tier()
-	prog.Check(t, "C03", "TestPropSignOnlyDecided", genFor(sizes, maxOps), run)
+	prog.Check(t, "C03", testName, genFor(sizes, maxOps), run)
 }
 
-func TestReplay(t *testing.T) { prog.Replay(t, "C03", "TestPropSignOnlyDecided", run) }
+func TestReplay(t *testing.T) { prog.Replay(t, "C03", testName, run) }
